@@ -40,6 +40,17 @@ PROPS = {
         "level_note": "trusted: LunarCal.tla label rules, TLC, harness logging; which month is leap is bound from LunarYear::get_leap_month (C04 relates it to the astronomy)",
         "technique": "TLA+ month-clock model checked with TLC + trace validation of month walks",
     },
+    "C04": {
+        "title": "month numbers and the leap month follow the no-major-term rule",
+        "mc": {"quick": [{"module": "MC_LeapRule", "cfg": "MC_LeapRule12.cfg", "workers": 2}, {"module": "MC_LeapRule", "cfg": "MC_LeapRule13.cfg", "workers": 2}]},
+        "rule": "one span (winter solstice of December Y-1 to that of December Y) per lunar year Y: 22 fixed + 600 seeded years (quick) or all years 27..9998 (thorough), minus the reform years 238-240 the property excludes; "
+                "Non-trivial: spans of 13 lunations, where a leap month has to be placed",
+        "exhaustive": {"quick": False, "thorough": True},
+        "assumptions": ["new-moon days are LunarMonth::get_first_julian_day and major-term days SolarTerm::get_cursory_julian_day (the calendar-making days), as the property states"],
+        "level_text": "TLC checks that the rule, as a labelling machine, is total and closes for every distribution of the 12 major terms over 12 or 13 lunations (MC_LeapRule) and validates for every span of the real code that the labels the rule computes from the library's own new-moon and major-term days are the labels the library gives (solstice lunation = 11, first lunation without a major term = leap, stored leap-month table consistent); thorough covers every lunar year 27..9998",
+        "level_note": "trusted: LeapRule.tla, TLC, harness logging; years 238-240 are excluded by the property itself",
+        "technique": "TLA+ leap-rule model checked with TLC + trace validation per solstice-to-solstice span",
+    },
     "C06": {
         "title": "every day belongs to exactly one solar term: ordered, evenly spaced, consistent",
         "mc": {"quick": [{"module": "MC_TermClock", "cfg": "MC_TermClock.cfg", "workers": 4}]},
